@@ -16,7 +16,7 @@ MM = dict(mode="bounded", bound="nvelt<=4, msize<=5 (exact reference model)", un
 ob("lk_Visvg_model", "C08", entry="h_Visvg_model", **MM)
 ob("lk_Visvs_model", "C08", entry="h_Visvs_model", **MM)
 ob("lk_Vgetnext_model", "C08", entry="h_Vgetnext_model", **MM)
-# FAILS on the real code (defect candidate: Vgetnext(vkey,-1) behaves like Vgetnext(vkey,65535) when member 0 is no vgroup/vdata)
+# found D78 (repaired): Vgetnext(vkey,-1) behaved like Vgetnext(vkey,65535) when member 0 is no vgroup/vdata
 ob("lk_Vgetnext_first_model", "C08", entry="h_Vgetnext_first_model", **MM)
 # name / class / count read-out (A-STR)
 for _f in ("Vgetname", "Vgetclass", "Vgetnamelen", "Vgetclassnamelen", "Vinquire"):
